@@ -388,7 +388,15 @@ def provider_function_rule(prog: Program, rep, RID: str, cname: str, g: FuncInfo
                                       "although edges without a value can exist (the edges between expanded nodes in node-weighted mode): every node counts as a source, "
                                       "the total is too large and the bound exceeds the optimum (a(3)->b(3): bound 2, optimum 1)", g.loc(c))
                 else:
-                    rep.ok(RID, keyt, "the total is the out-flow of the source nodes' valued edges", sf.loc())
+                    early = [st_ for st_ in walk_no_nested(g.node) if isinstance(st_, ast.If) and st_.lineno < c.lineno and
+                             any(isinstance(x, ast.Return) and (x.value is None or (isinstance(x.value, ast.Constant) and x.value.value is None)) for x in st_.body)
+                             and "self.flow_attr not in" in norm(st_.test) and "self.G.edges" in norm(st_.test) and "edges_to_ignore" not in norm(st_.test)]
+                    if early:
+                        rep.ok(RID, keyt, "the total (out-flow of the source nodes' valued edges) is used only when every edge has a flow value", g.loc(early[0]))
+                    else:
+                        rep.violation(RID, keyt, f"{cname}._get_source_flow sums the valued out-edges of the source nodes, and the min-gen-set bound uses it although a path can start "
+                                      "on an element without a value (a source node without the attribute in node-weighted mode, an attribute-less ignored source edge): such paths "
+                                      "are not counted in the total, the generating-set size is no lower bound and more paths than the minimum are returned (4 where 3 suffice)", g.loc(c))
             key = f"{cname}.{g.name}:ignored-values"
             if guarded or filtered:
                 rep.ok(RID, key, "the generating-set bound is not computed from the flow values of ignored edges "
